@@ -4,7 +4,7 @@ CONSTANTS
   Part = "value"
   L = 3
   Cut = 6
-  Stride = 3
+  Stride = 4
 INVARIANT LawOutDomain
 INVARIANT LawSame
 INVARIANT LawPreserving
